@@ -53,19 +53,6 @@ type fetchAnswer struct {
 	id int64
 }
 
-// confirmBudget: how many times a run may spend the long real-time confirmation window on an
-// observation that violates the property (later ones use the short window).
-var confirmBudget atomic.Int32
-
-func init() { confirmBudget.Store(3) }
-
-func confirmWindow() time.Duration {
-	if confirmBudget.Load() > 0 {
-		return 6 * time.Second
-	}
-	return 150 * time.Millisecond
-}
-
 func c19RunReady(ctx *core.Ctx, in c19Input) {
 	c := hx.Case{Kind: "ready", Input: hx.MustJSON(in), Facts: map[string]any{}}
 	ca := getCA()
@@ -177,7 +164,9 @@ loop:
 			threads.spawn(func() {
 				svid, err := src.GetX509SVID()
 				switch {
-				case err != nil || svid == nil || len(svid.Certificates) == 0:
+				case err == nil && (svid == nil || len(svid.Certificates) == 0):
+					cl.set("(CGetSvid (-1)%Z)") // neither an SVID nor an error
+				case err != nil:
 					cl.set("CGetErr")
 				default:
 					cl.set(fmt.Sprintf("(CGetSvid %s)", hx.CoqZ(certID(svid.Certificates[0]))))
@@ -225,8 +214,15 @@ loop:
 			}
 			// must-complete calls that have not completed: the only real-time judgement — give
 			// them several seconds before recording them as pending
-			end := time.Now().Add(confirmWindow())
-			for time.Now().Before(end) {
+			// a call that has returned keeps its result: waiting can only help a pending one
+			canChange := runCalled && !as
+			for _, x := range st {
+				if x == "CPending" {
+					canChange = true
+				}
+			}
+			end := time.Now().Add(livenessDeadline())
+			for canChange && time.Now().Before(end) {
 				time.Sleep(time.Millisecond)
 				as, st = observe()
 				if satisfied(as, st) {
@@ -236,7 +232,9 @@ loop:
 			}
 			if !satisfied(as, st) {
 				hung = true
-				confirmBudget.Add(-1) // only confirmed hangs use up the long windows
+				if canChange {
+					noteHang() // only confirmed hangs use up the long windows
+				}
 			}
 		}
 		coqObs = append(coqObs, fmt.Sprintf("mkRobs %s %s", hx.CoqBool(as), hx.CoqList(st)))
@@ -257,9 +255,16 @@ loop:
 		threads.spawn(func() { _ = s.Run(runCtx) })
 	}
 	if !hung {
-		end := time.Now().Add(5 * time.Second)
+		// after the teardown (contexts cancelled, the initial fetch answered with a failure or
+		// Run started with a failing issuer) every call must return; a stall here is the same
+		// hang, met outside the script: bounded and budgeted, not judged
+		end := time.Now().Add(livenessDeadline())
 		for !threads.allFinished() && time.Now().Before(end) {
 			time.Sleep(50 * time.Microsecond)
+		}
+		if !threads.allFinished() {
+			noteHang()
+			ctx.Sink.Count("ready/teardown_stall")
 		}
 	}
 
